@@ -242,3 +242,42 @@ PROPS["C14"] = Meta(
     "group part: every cell/particle group of generated trees is byte-copied and viewed through the raw constructors: equal accessors, accessors inside the copied buffers, and "
     "P2M/M2L-in-group/L2P/P2P operators give the same bytes on the copy; non-trivial = >= 2 sub-blocks with a count that is not a multiple of the alignment / >= 2 leaf groups",
     COMMON_ASSUME + ["the trailer layout (counts in the last NbBlocks longs, offsets before) is taken as the documented self-description: it is what the raw-memory constructor reads"])
+
+
+def rebuild(dim, real="double", datat=None, periodic=0, nx=2):
+    defs = {"DIM": dim, "NX": nx, "REALT": real, "PERIODIC": periodic}
+    name = "t_rebuild_d%d_%s" % (dim, real)
+    if datat:
+        defs["DATAT"] = datat
+        name += "_" + datat
+    if periodic:
+        name += "_per"
+    return Bin(name, ["props/t_rebuild.cpp"], defs)
+
+
+def rebuild_jobs(q, t):
+    return [
+        Job("rb-d3", rebuild(3), quick=(4, q, 100), thorough=(16, t, 100)),
+        Job("rb-d2", rebuild(2), quick=(3, q, 100), thorough=(16, t, 100)),
+        Job("rb-d1", rebuild(1), quick=(2, q, 100), thorough=(16, t, 100)),
+        Job("rb-d3-periodic", rebuild(3, periodic=1), quick=(3, q, 100), thorough=(16, t, 100)),
+        Job("rb-d3-float-double", rebuild(3, "float", "double"), quick=(2, q, 100), thorough=(16, t, 100)),
+        Job("rb-d1-double-float", rebuild(1, "double", "float"), quick=(1, q, 100), thorough=(16, t, 100)),
+        Job("rb-d2-float", rebuild(2, "float"), quick=(1, q, 100), thorough=(16, t, 100)),
+    ]
+
+
+PROPS["C13"] = Meta(rebuild_jobs(250, 3000),
+    "stateful histories: build, execute, then 1..4 cycles of {move a generated subset of particles (jitter / teleport / gather all into one leaf / scatter all / no move) by writing the "
+    "positions in place, rebuild(), check, execute(), check}; oracle after rebuild: structure invariants of C07 against the model of the edited positions, every index once in the leaf of its "
+    "new position with bit-identical data rows, accumulated results preserved exactly, all expansions zero, grouping identical to a tree freshly built from the edited particles; after execute: "
+    "results = preserved + one model interaction; variants: Dim 1..3, periodic ordering, (float,double) and (double,float) coordinate/data types; "
+    "non-trivial = a move that changes the number of occupied leaves", COMMON_ASSUME)
+PROPS["C17"].jobs += [Job("rb-d3", rebuild(3), quick=(2, 200, 100), thorough=(16, 2000, 100)),
+                      Job("rb-d3-float-double", rebuild(3, "float", "double"), quick=(2, 200, 100), thorough=(16, 2000, 100))]
+PROPS["C07"].jobs += [Job("rb-d3", rebuild(3), quick=(2, 200, 100), thorough=(16, 2000, 100)), Job("rb-d2", rebuild(2), quick=(1, 200, 100), thorough=(16, 2000, 100))]
+PROPS["C06"].jobs += [Job("d3-float", single(3, 1, "float"), quick=(2, 300, 100), thorough=(16, 4000, 100)),
+                      Job("d3-float-double", single(3, 2, "float", "double"), quick=(2, 300, 100), thorough=(16, 4000, 100)),
+                      Job("d2-double-float", single(2, 3, "double", "float"), quick=(2, 300, 100), thorough=(16, 4000, 100)),
+                      Job("d3-nx0", single(3, 0), quick=(1, 300, 100), thorough=(16, 4000, 100))]
+PROPS["C01"].jobs += [Job("d3-float", single(3, 1, "float"), quick=(2, 300, 100), thorough=(16, 4000, 100))]
